@@ -604,8 +604,16 @@ func init() {
 	reg("sort.SliceStable", intrinsics["sort.Slice"])
 
 	// ----- time -----
+	// time.Now: the clock is a stub that returns one fixed instant
+	// (2026-01-01T00:00:00Z, no monotonic reading) at every call: time does not
+	// advance during the operations a harness runs, so polling loops with
+	// time-outs (the packed-refs lock retry) never time out. A symbolic clock
+	// was tried and dropped: time.Since/Sub divide 64-bit values by 10^9, which
+	// the solvers do not decide. Harnesses that depend on time take it from
+	// their own inputs (file mtimes, commit timestamps).
 	reg("time.Now", func(e *Engine, caller *frame, fn *ssa.Function, args []value) value {
-		panic(engineError{"time.Now is not modelled in this harness"})
+		c := e.ctx
+		return Struct{c.Const(64, 0), c.Const(64, 63902822400), Ptr{}}
 	})
 }
 
